@@ -3,6 +3,7 @@ package c02
 import (
 	"context"
 	"fmt"
+	"regexp"
 	"strings"
 	"testing"
 
@@ -19,8 +20,8 @@ func TestVerif(t *testing.T) {
 	driver.Main(t, driver.Harness{
 		ID:    "C02",
 		Level: "model_checking",
-		Rule: "scenario = curated DAG shape x Concurrency x API (CopyGraph, Copy, ExtendedCopyGraph) x pre-population; choice tree = goroutine schedules x fault answers " +
-			"(normal | error before effect | cancel context | error after effect (Push)) at every Fetch/Exists/Push/Predecessors/callback invocation, enumerated within " +
+		Rule: "scenario = curated DAG shape x Concurrency x API (CopyGraph, Copy, ExtendedCopyGraph; for shapes with two or more referrers also ExtendedCopyGraph with FilterAnnotation and with FilterArtifactType, whose manifest reads are fault points too) x pre-population; choice tree = goroutine schedules x fault answers " +
+			"(normal | error before effect (a failed source Fetch also matches errdef.ErrNotFound: the source no longer has the content) | cancel context | error after effect (Push)) at every Fetch/Exists/Push/Predecessors/callback invocation, enumerated within " +
 			"the bound vector (F faults, D schedule deviations). Monitor: link-closure at every completed destination Push; oracle: faulted or cancelled call returns non-nil, " +
 			"no deadlock/livelock, fault-free retry on the same destination completes the graph. non-trivial = execution with at least one injected fault",
 		Assumptions: []string{
@@ -51,9 +52,20 @@ func jobs(tier string) []driver.Job {
 	th := tier == "thorough"
 	for _, d := range Curated() {
 		root := len(d.Nodes) - 1
-		for _, api := range []string{"graph", "copy", "ext"} {
+		nref := 0
+		for _, n := range d.Nodes {
+			if n.Subject >= 0 {
+				nref++
+			}
+		}
+		apis := []string{"graph", "copy", "ext"}
+		if nref >= 2 {
+			// predecessor filters read the referrers' manifests from the source: more needed source reads
+			apis = append(apis, "ext-fann", "ext-ftype")
+		}
+		for _, api := range apis {
 			start := root
-			if api == "ext" {
+			if strings.HasPrefix(api, "ext") {
 				// start from the deepest manifest that has a referrer, else from the first leaf
 				start = 0
 				for _, n := range d.Nodes {
@@ -65,7 +77,7 @@ func jobs(tier string) []driver.Job {
 			}
 			var preps [][]int
 			preps = append(preps, nil)
-			if api != "ext" {
+			if !strings.HasPrefix(api, "ext") {
 				for _, ds := range d.DownSets(root) {
 					if len(ds) == 1 {
 						preps = append(preps, ds)
@@ -78,8 +90,11 @@ func jobs(tier string) []driver.Job {
 					if conc == 3 && len(prep) > 0 {
 						continue
 					}
+					if strings.HasPrefix(api, "ext-") && conc != 2 {
+						continue
+					}
 					s := scen{d: d, start: start, prepop: prep, conc: conc, api: api}
-					heavy := api == "ext" && len(d.Nodes) > 6
+					heavy := strings.HasPrefix(api, "ext") && len(d.Nodes) > 6
 					if th {
 						out = append(out, mkJob(s, explore.Bounds{Fault: 1, Dev: 2}, 16)...)
 						out = append(out, mkJob(s, explore.Bounds{Fault: 2, Dev: 1}, 8)...)
@@ -163,7 +178,14 @@ func (s scen) call(ctx context.Context, w *World, srcM, dstM *memory.Store, faul
 		_, err := oras.Copy(ctx, src, "ref", dst, "", oras.CopyOptions{CopyGraphOptions: opts})
 		return err
 	default:
-		return oras.ExtendedCopyGraph(ctx, src, dst, desc, oras.ExtendedCopyGraphOptions{CopyGraphOptions: opts})
+		eo := oras.ExtendedCopyGraphOptions{CopyGraphOptions: opts}
+		switch s.api {
+		case "ext-fann":
+			eo.FilterAnnotation("verif.key", nil)
+		case "ext-ftype":
+			eo.FilterArtifactType(regexp.MustCompile("."))
+		}
+		return oras.ExtendedCopyGraph(ctx, src, dst, desc, eo)
 	}
 }
 
@@ -223,7 +245,10 @@ func (s scen) make(last **World) (func(), func(*vs.Result) *driver.Fail) {
 		}
 		// completeness after success or retry
 		var want []int
-		if s.api == "ext" {
+		if strings.HasPrefix(s.api, "ext-") {
+			// which predecessors a filter keeps is C03's subject: only the given node's own graph is demanded here
+			want = d.Closure(s.start, true)
+		} else if s.api == "ext" {
 			seen := map[int]bool{}
 			for a := range d.Ancestors(s.start) {
 				for _, x := range d.Closure(a, true) {
